@@ -252,6 +252,18 @@ def run : St → List Op → List Obs
   | _, [] => []
   | st, op :: ops => let (st', out) := step st op; (out, st'.nCat) :: run st' ops
 
+/-- phase 2: two in-memory forecasts constructed over the SAME Python catalog objects (`CatalogForecast(catalogs=cats)`
+    twice).  `Catalog.filter` works in place, so whatever one forecast's pass does to the objects the other forecast
+    sees: after an operation of one, the other's `catalogs` are the acting forecast's.  `false` = the first forecast. -/
+def runShared : St → St → List (Bool × Op) → List Obs
+  | _, _, [] => []
+  | a, b, (false, op) :: rest =>
+      let (a', o) := step a op
+      (o, a'.nCat) :: runShared a' { b with catalogs := a'.catalogs } rest
+  | a, b, (true, op) :: rest =>
+      let (b', o) := step b op
+      (o, b'.nCat) :: runShared { a with catalogs := b'.catalogs } b' rest
+
 /-! ### specification: everything is a function of the fixed list of once-filtered catalogs -/
 
 def applyOnce (applyFilters : Bool) (c : Cat) : Cat := if applyFilters then filt c else c
